@@ -73,9 +73,11 @@ vars == <<text, opener, style, lit, i, depth, out, st, soft>>
 RECURSIVE StrUpTo(_)
 StrUpTo(n) == IF n = 0 THEN {<<>>} ELSE LET S == StrUpTo(n - 1) IN S \cup {Append(t, c) : t \in {u \in S : Len(u) = n - 1}, c \in Alphabet}
 
+\* very long digit strings after U+ (9, 15 .. 65 digits: far beyond any code point - kept literally like every other invalid escape)
+LongHex == {[q \in 1..n |-> "1"] : n \in {9, 15, 16, 17, 18, 31, 32, 33, 64, 65}} \cup {[q \in 1..n |-> IF q = n THEN "1" ELSE "0"] : n \in {9, 16, 17, 33}}
 Init == /\ opener \in Openers
         /\ IF Mode = "uplus"      \* `U+h..h` with every hex string, alone and followed by a character
-           THEN /\ \E h \in StrUpTo(MaxLen) \ {<<>>}, tail \in {<<>>, <<"x">>} : text = <<"bt", "U", "+">> \o h \o <<"bt">> \o tail
+           THEN /\ \E h \in (StrUpTo(MaxLen) \ {<<>>}) \cup LongHex, tail \in {<<>>, <<"x">>} : text = <<"bt", "U", "+">> \o h \o <<"bt">> \o tail
                 /\ style = "raw" /\ lit = <<opener>> \o text \o <<Closer(opener)>>
            ELSE IF Mode = "roundtrip"
            THEN /\ text \in StrUpTo(MaxLen) /\ style \in {"A", "B"} /\ lit = Encode(text, opener, style)
